@@ -459,8 +459,28 @@ def nontrivial(c, o):
     return None
 
 
+def pipeline_retry(ctx, target, cases, binary, *a, **kw):
+    """ctx.pipeline, robust against another check running in parallel: if that one regenerates and
+    rebuilds gen/Consts.vo between our Coq build and our model evaluation, coqc refuses our model
+    objects ("inconsistent assumptions over library V.gen.Consts"); rebuild and evaluate again."""
+    for attempt in range(3):
+        ctx.coq_make([target])
+        mark = (len(ctx.impl_viol), len(ctx.tie_breaks), ctx.cov["evaluations"], dict(ctx.cov["distribution"]),
+                ctx.cov["traces_validated_against_impl"], set(ctx._nontrivial), list(ctx.cov["samples"]))
+        ctx.pipeline(cases, binary, *a, **kw)
+        stale = [t for t in ctx.tie_breaks[mark[1]:] if t[0] == "model-eval" and "inconsistent assumptions" in str(t[2])]
+        if not stale or attempt == 2:
+            return
+        ctx.log("gen/Consts.vo was rebuilt by a parallel check during this run; rebuilding the model and evaluating again")
+        del ctx.impl_viol[mark[0]:]
+        del ctx.tie_breaks[mark[1]:]
+        ctx.cov["evaluations"], ctx.cov["distribution"], ctx.cov["traces_validated_against_impl"] = mark[2], mark[3], mark[4]
+        ctx._nontrivial, ctx.cov["samples"] = mark[5], mark[6]
+
+
 def run(ctx):
     ctx.regen_consts()
+    binary = ctx.cargo_build("c15")       # the long step first: keeps Coq build and model evaluation close together
     ctx.prove("props/C15.v", THEOREMS, extra_trusted=[
         "model coq/model/ClientRead.v (+ SelfEnc.v for whole-data reads), hand-written, tied to autonomi's "
         "chunk_get / get_vault_from_network / fetch_and_decrypt_vault and ant-networking's split handling by this "
@@ -468,8 +488,7 @@ def run(ctx):
         "symbolic BLS (signer, counter, ciphertext named explicitly); SHA3-256 as a table computed by python hashlib",
         "translator tools/extract_consts.py: RecordKind wire tags of Chunk / Scratchpad, RecordHeader::SIZE",
         "harness/crates/c15 (Rust driver, serde mirror of Scratchpad for forged pads), tools/props/C15.py"])
-    binary = ctx.cargo_build("c15")
     cases = ctx.corpus() + ([] if ctx.replay else gen(ctx))
-    ctx.pipeline(cases, binary, oracle, model_term, IMPORTS, nontrivial=nontrivial, show=show,
+    pipeline_retry(ctx, "props/C15.v", cases, binary, oracle, model_term, IMPORTS, nontrivial=nontrivial, show=show,
                  relation="Client::{chunk_get, fetch_and_decrypt_vault, get_or_create_scratchpad, data_get, data_get_public} "
                           "== ClientRead.{chunk_get, fetch_and_decrypt_vault, get_vault} / SelfEnc shadow read")
